@@ -295,6 +295,56 @@ func TestVerif_C08(t *testing.T) {
 				}
 			}
 		}
+		// ---- systematic sweep: every option member x every JSON value kind, with a first argument that is
+		// archived (a slot whose block has transactions, an archived signature, an indexed address), so that a
+		// request that passes parsing really runs the whole handler
+		{
+			var slotWithTx uint64
+			var sigArch, addr string
+			for _, b := range truth.Blocks {
+				if len(b.Txs) > 0 {
+					slotWithTx, sigArch, addr = b.Slot, b.Txs[0].Sig, b.Txs[0].Accounts[1]
+					break
+				}
+			}
+			values := []vc08J{{"null", "JNull"}, {"true", "JBool true"}, {"false", "JBool false"}, {"0", "JNum 0%Z"}, {"7", "JNum 0%Z"},
+				{`"base64"`, "JStr (SEncoding true)"}, {`"json"`, "JStr (SEncoding true)"}, {`"binary"`, "JStr (SEncoding false)"},
+				{`"` + sigArch + `"`, "JStr SSig"}, {`"` + solana.Signature{}.String() + `"`, "JStr SZeroSig"}, {`"` + addr + `"`, "JStr SPubkey"},
+				{`"finalized"`, "JStr SOther"}, {`""`, "JStr SOther"}, {"[]", "JArr []"}, {"{}", "JObj []"}}
+			firsts := []struct {
+				m     string
+				coq   string
+				first vc08J
+			}{
+				{"getBlock", "MGetBlock", vc08J{fmt.Sprint(slotWithTx), "JNum 0%Z"}},
+				{"getTransaction", "MGetTransaction", vc08J{`"` + sigArch + `"`, "JStr SSig"}},
+				{"getBlockTime", "MGetBlockTime", vc08J{fmt.Sprint(slotWithTx), "JNum 0%Z"}},
+				{"getSignaturesForAddress", "MGsfa", vc08J{`"` + addr + `"`, "JStr SPubkey"}},
+			}
+			for _, f := range firsts {
+				for _, k := range vc08Keys {
+					for _, v := range values {
+						body := fmt.Sprintf(`{"jsonrpc":"2.0","id":1,"method":%q,"params":[%s,{%q:%s}]}`, f.m, f.first.json, k.name, v.json)
+						resp, _, panicked, pmsg := vfxRPC(h, body)
+						rep.Case(tag+"/"+body, true)
+						rep.Count("jsonrpc-sweep:" + f.coq)
+						obs := "RProceeds"
+						if panicked {
+							obs = "RPanic 0"
+							rep.Fail("handler-panic:"+f.m, fmt.Sprintf("%s: %s -> panic: %.300s", tag, body, pmsg), map[string]interface{}{"epochs_loaded": nEpochs, "body": body})
+						} else if r, err := vfxParseReply(resp); err == nil && r.Error != nil {
+							switch r.Error.Code {
+							case -32602:
+								obs = "RInvalidParams"
+							case -32601:
+								obs = "RMethodNotFound"
+							}
+						}
+						cases.Add(fmt.Sprintf("CHttp %s %s (PRaw (Some [%s; JObj [(%s, %s)]])) (%s)", vh.CoqBool(nEpochs > 0), f.coq, f.first.coq, k.coq, v.coq, obs))
+					}
+				}
+			}
+		}
 		// ---- HTTP shapes: methods and paths
 		for _, hm := range []string{"GET", "POST", "PUT", "DELETE", "OPTIONS", "HEAD"} {
 			for _, path := range []string{"/", "/health", "/metrics", "/api/v1/", "/api/v1/gsfa", "/api/v1/x/y", "/%ff", "/api/v1/%00"} {
